@@ -11,6 +11,15 @@ _ODE_NOTE = ("the strict C reader is trusted for the statement shapes it accepts
 _ODE_TECH = ("TLA+ spec OdeGen.tla model-checked with TLC over all small networks; TLC-chosen and random networks rendered by the real "
              "generator for dense/sparse/cusparse/odeint, read back with a strict C reader and validated event by event by Trace_OdeGen.tla")
 CHECKS = {
+    "C07": dict(level="model_checking", design_ref="DESIGN.md §4 C07, §11",
+        technique="TLA+ spec Formats.tla (reader as a state machine over line classes + marker filter + code->type tables) model-checked "
+                  "with TLC; files written by independent encoders of the six layouts, read by the real readers, judged by "
+                  "Trace_Formats.tla",
+        text="TLC checks OnePerDataLine / OrderPreserved / NoPseudoSpecies for all files of <= 4 lines over the line classes; every "
+             "encoded file (all type codes, marker tokens, 0-5 products, signed/exponent numbers, wide indices, blank / comment / "
+             "directive lines, mid-file @format changes) must be decoded to the reactions the line machine yields, field by field.",
+        note="column-exact decoding rests on my transcription of the six layouts (encode->decode identity); TLC decides the line machine, "
+             "the code tables and the comparison"),
     "C09": dict(level="model_checking", design_ref="DESIGN.md §4 C09, §11",
         technique="TLA+ spec Index.tla (alias construction, (connectivity, name) order, artefact views) model-checked with TLC; networks over "
                   "a pool of species with known attributes rendered; identifier tables of five artefacts read back and judged by "
